@@ -512,6 +512,7 @@ func c15History(c *Ctx, sh *shard, dir string, hi int, fixed bool) {
 			}
 			start := len(h.log)
 			_, err := eng.Merge(ctx)
+			h.closeFault = -1 // a merge that wrote nothing must not leave its fault to the next flush
 			h.hasMerge = true
 			m := c15Merge{publishPos: -1, donePos: len(h.log), srcRows: src}
 			for k := start; k < len(h.labels); k++ {
